@@ -29,6 +29,8 @@ type cell struct {
 	// MapKG, if set, is what Membership() returns until the key generation is over; Map is what it
 	// returns afterwards (the membership of a long-lived Scheme changes between operations)
 	MapKG map[uint16]uint16 `json:"map_keygen,omitempty"`
+	// PickDesc: in silent mode the application's member picker lists the nodes in descending order
+	PickDesc bool `json:"pick_descending,omitempty"`
 }
 
 func (k cell) kgCell() cell {
@@ -38,7 +40,12 @@ func (k cell) kgCell() cell {
 	return k
 }
 
-func (k cell) id() string { return fmt.Sprintf("%s/%s/%s/p%v", k.Mode, k.Name, k.Op, k.Part) }
+func (k cell) id() string {
+	if k.PickDesc {
+		return fmt.Sprintf("%s/%s/%s/p%v/pick-desc", k.Mode, k.Name, k.Op, k.Part)
+	}
+	return fmt.Sprintf("%s/%s/%s/p%v", k.Mode, k.Name, k.Op, k.Part)
+}
 
 func (k cell) dupParty(nodes []uint16) bool {
 	seen := map[uint16]bool{}
@@ -90,11 +97,20 @@ func run(c *harness.C, k cell, r world.Chooser) *out {
 			SF:  func(id uint16) tss.Signer { return s.New(id, po, lg) }}
 		if k.Mode == "silent" {
 			dkgTopic := world.Sha([]byte(tss.DkgTopicName))
+			ord := func(l []uint16) []uint16 {
+				o := append([]uint16(nil), l...)
+				if k.PickDesc {
+					for i, j := 0, len(o)-1; i < j; i, j = i+1, j-1 {
+						o[i], o[j] = o[j], o[i]
+					}
+				}
+				return o
+			}
 			st.Pick = func(topic []byte, expected int) []uint16 {
 				if bytes.Equal(topic, dkgTopic) {
-					return k.Part
+					return ord(k.Part)
 				}
-				return k.Signers
+				return ord(k.Signers)
 			}
 		}
 		for _, n := range nodes {
@@ -399,6 +415,13 @@ func gen(c *harness.C) []harness.Case {
 	// replicas whose party id collides with another node id
 	rep2 := map[uint16]uint16{1: 3, 2: 3, 3: 1, 4: 2}
 	add("replicas4x", rep2, [][]uint16{{1, 3, 4}, {2, 3, 4}}, last2)
+	// silent mode with a member picker that does not list the nodes in ascending order
+	for _, k := range append([]cell(nil), cells...) {
+		if k.Mode == "silent" && (k.Name == "shift3" || k.Name == "rev3" || k.Name == "boundary3" || k.Name == "replicas4" || k.Name == "node-zero") {
+			k.PickDesc = true
+			cells = append(cells, k)
+		}
+	}
 	// the membership of long-lived Schemes changes between the key generation and the signing
 	// session (README: a replica is added / a node is removed)
 	for _, mode := range []string{"loud", "silent"} {
